@@ -22,16 +22,17 @@ class Unextractable(Exception):
 
 
 class St:
-    __slots__ = ("know", "vars", "consts", "moved")
+    __slots__ = ("know", "vars", "consts", "moved", "eff")
 
-    def __init__(self, know=None, vars=None, consts=None, moved=False):
+    def __init__(self, know=None, vars=None, consts=None, moved=False, eff=None):
         self.know = dict(know or {})
         self.vars = dict(vars or {})
         self.consts = dict(consts or {})
         self.moved = moved      # the cursor has advanced since the last loop head (on every path joined into this state)
+        self.eff = dict(eff or {})   # assignments of literals to fields of `self` on this path: field -> ("=", v) | ("+", k) | "?"
 
     def copy(self):
-        return St(self.know, self.vars, self.consts, self.moved)
+        return St(self.know, self.vars, self.consts, self.moved, self.eff)
 
     def key(self):
         return (tuple(sorted(self.know.items())), tuple(sorted(self.vars.items())), tuple(sorted(self.consts.items())))
@@ -43,14 +44,24 @@ class St:
         return s
 
     def learn(self, off, v):
+        """refine the knowledge at `off` by the kind set v ("N", "L", "E" or a combination like "EN"); None if that is impossible"""
         s = self.copy()
         if v is None:
             return s
         old = s.know.get(off)
-        if old is not None and old != v:
+        new = set(v) if old is None else (set(old) & set(v))
+        if not new:
             return None  # contradiction: infeasible path
-        s.know[off] = v
+        s.know[off] = "".join(sorted(new))
         return s
+
+
+def kjoin(x, y):
+    """union of two kind sets; None (nothing known) when it is everything"""
+    if x is None or y is None:
+        return None
+    u = "".join(sorted(set(x) | set(y)))
+    return None if u == "ELN" else u
 
 
 def join(a, b):
@@ -59,10 +70,13 @@ def join(a, b):
     if b is None:
         return a
     s = St()
-    s.know = {k: v for k, v in a.know.items() if b.know.get(k) == v}
+    s.know = {k: kjoin(v, b.know.get(k)) for k, v in a.know.items() if kjoin(v, b.know.get(k)) is not None}
     s.vars = {k: v for k, v in a.vars.items() if b.vars.get(k) == v}
     s.consts = {k: v for k, v in a.consts.items() if b.consts.get(k) == v}
     s.moved = a.moved and b.moved
+    s.eff = {k: (v if b.eff.get(k) == v else "?") for k, v in a.eff.items()}
+    for k in b.eff:
+        s.eff.setdefault(k, "?")
     return s
 
 
@@ -90,6 +104,7 @@ class Cursor:
         self.sites = {}      # key -> where (every consume site analysed)
         self.pos_sites = {}  # key -> (where, knowledge about the character under the cursor when a position is taken)
         self.pos_ordinals = {}
+        self.pos_kinds = {}  # key -> set of kind sets (None = nothing known) seen at the site
         self.depth = 0
         self.stack = []
         self.ctx = []        # arm labels
@@ -99,6 +114,7 @@ class Cursor:
         self.used_summaries = set()
         self.ordinals = {}
         self.stalls = {}     # key -> (msg, where): loop paths that do not advance the cursor
+        self.present = set()   # offsets assumed to hold a character (not the end of the input): used when one function is evaluated case by case
         self.loops_seen = {}
         self._loop_ids = {}
 
@@ -193,7 +209,7 @@ class Cursor:
         key = f"{short(fn)}|{label}|consume#{idx}"
         self.sites[key] = loc(node)
         k0 = st.know.get(0)
-        if k0 is None:
+        if k0 is None or ("L" in k0 and k0 != "L"):
             via = " <- ".join(short(x) for x in reversed(self.stack)) or short(fn)
             self.viol.setdefault(key, (f"`consume_char()` in {short(fn)} (arm {label}) steps over a character that has not been tested: if it is the newline, the line break disappears into this token / error and the following line is glued to the current one (call chain {via})", loc(node)))
         return st.shift()
@@ -283,7 +299,7 @@ class Cursor:
                     if ly.get("k") == "Call" and short(callee_of(ly) or "") == "Some" and peel(ly["args"][0]).get("k") == "Lit":
                         ch = peel(ly["args"][0])["lit"]["v"]
                         t = st.learn(oo, lit_kind(ch))
-                        f = st.learn(oo, "N") if ch == NL else st.copy()
+                        f = st.learn(oo, "EN") if ch == NL else st.copy()
                         res = []
                         if t is not None:
                             res.append((e["op"] == "Eq", t))
@@ -291,16 +307,22 @@ class Cursor:
                             res.append((e["op"] != "Eq", f))
                         return res
                     if ly.get("k") == "Path" and short(ly.get("res") or "") == "None":
-                        t = st.learn(oo, "N")
-                        res = [(e["op"] != "Eq", st.copy())]
+                        t = st.learn(oo, "E")
+                        f = st.learn(oo, "LN")
+                        res = []
+                        if f is not None:
+                            res.append((e["op"] != "Eq", f))
                         if t is not None:
                             res.append((e["op"] == "Eq", t))
                         return res
         if k == "MethodCall" and e["name"] in ("is_none", "is_some") and not e["args"]:
             oo = self.opt_offset(e["recv"], st)
             if oo is not None:
-                t = st.learn(oo, "N")  # end of input: nothing to consume
-                res = [(e["name"] == "is_some", st.copy())]
+                t = st.learn(oo, "E")  # end of input
+                f = st.learn(oo, "LN")
+                res = []
+                if f is not None:
+                    res.append((e["name"] == "is_some", f))
                 if t is not None:
                     res.append((e["name"] == "is_none", t))
                 return res
@@ -355,11 +377,14 @@ class Cursor:
         if val and val[0] == "opt_at":
             o = val[1]
             if k == "PTupleStruct" and short(res) == "Some":
-                m, r = self.match_pat(pat["pats"][0], ("at", o), st)
+                there = st.learn(o, "LN")
+                if there is None:
+                    return None, st.copy()
+                m, r = self.match_pat(pat["pats"][0], ("at", o), there)
                 # not matching Some(p): either None (end of input -> nothing to eat) or Some(other)
                 return m, (r if r is not None else None) if False else self._opt_rest(pat["pats"][0], o, st, r)
             if k in ("PPath", "PExpr", "PStruct", "PTupleStruct") and short(res) == "None":
-                return st.learn(o, "N"), st.copy()
+                return (None if o in self.present else st.learn(o, "E")), st.learn(o, "LN")
             raise Unextractable(f"pattern {k} on an Option<char>")
         if val and val[0] == "at":
             o = val[1]
@@ -392,7 +417,7 @@ class Cursor:
 
     def _opt_rest(self, inner, o, st, r):
         # pattern Some(inner) failed: None (end of input) or Some(c) with c not matching inner
-        eof = st.learn(o, "N")
+        eof = None if o in self.present else st.learn(o, "E")
         if inner.get("k") in ("PWild", "PBinding"):
             return eof
         return join(eof, r) if r is not None else eof
@@ -487,10 +512,12 @@ class Cursor:
                         outs.append(("normal", s, None))
                     elif v and v[0] == "opt_at":
                         # `self.peek(k)?`: None is the end of the input (nothing there to step over), otherwise the character at k
-                        eof = s.learn(v[1], "N")
+                        eof = None if v[1] in self.present else s.learn(v[1], "E")
                         if eof is not None:
                             outs.append(("return", eof, ("tag", "None")))
-                        outs.append(("normal", s, ("at", v[1])))
+                        there = s.learn(v[1], "LN")
+                        if there is not None:
+                            outs.append(("normal", there, ("at", v[1])))
                     else:
                         outs.append(("return", s.copy(), ("tag", "None")))
                         outs.append(("normal", s, None))
@@ -545,6 +572,38 @@ class Cursor:
             for kind, s, v in self.run(e.get("e"), st) if e.get("e") is not None else [("normal", st, None)]:
                 outs.append(("return", s, v) if kind == "normal" else (kind, s, v))
             return outs
+        if k in ("Assign", "AssignOp") and peel(e["l"]).get("k") == "Field" and ekey(peel(e["l"])["e"]).lstrip("&*") == "self":
+            # `self.row += 1`, `self.col = 0`: recorded as the path's effect on the field (literals only)
+            outs = self.run(e["r"], st)
+            res = []
+            fld = peel(e["l"])["name"]
+            lv = lit_value(e["r"])
+            for kind, s, v in outs:
+                if kind != "normal":
+                    res.append((kind, s, v))
+                    continue
+                s = s.copy()
+                prev = s.eff.get(fld)
+                if (not isinstance(lv, int) or isinstance(lv, bool)) and k == "Assign" and prev is None:
+                    # `self.pos = (self.pos + 1).min(len)`: a step that stops at the end of the text
+                    r_ = peel(e["r"])
+                    if r_.get("k") == "MethodCall" and r_["name"] == "min" and len(r_["args"]) == 1:
+                        r_ = peel(r_["recv"])
+                    try:
+                        lf = linform(r_)
+                        s.eff[fld] = ("+", lf.get("", 0)) if lf.get(fld) == 1 and all(v_ == 0 for k_, v_ in lf.items() if k_ not in ("", fld)) else "?"
+                    except LinUnx:
+                        s.eff[fld] = "?"
+                elif not isinstance(lv, int) or isinstance(lv, bool) or prev == "?":
+                    s.eff[fld] = "?"
+                elif k == "Assign":
+                    s.eff[fld] = ("=", lv)
+                elif e["op"] == "AddAssign":
+                    s.eff[fld] = ("+", lv) if prev is None else (prev[0], prev[1] + lv)
+                else:
+                    s.eff[fld] = "?"
+                res.append(("normal", s, None))
+            return res
         if k == "Closure":
             if any(n.get("k") == "MethodCall" and n["name"] == "consume_char" for n in walk(e)):
                 raise Unextractable("consume_char inside a closure")
@@ -570,6 +629,7 @@ class Cursor:
                     k0 = s.know.get(0)
                     # several contexts may reach one site: 'L' (on a newline) in any of them is what matters
                     self.pos_sites[key] = (loc(e), "L" if (k0 == "L" or (prev and prev[1] == "L")) else k0)
+                    self.pos_kinds.setdefault(key, set()).add(k0)
                     res.append(("normal", s, None))
                 elif self.opt_offset(e, s) is not None:
                     res.append(("normal", s, ("opt_at", self.opt_offset(e, s))))
